@@ -514,6 +514,74 @@ Proof.
     apply perm_map_filter_rev.
 Qed.
 
+(* ---------------------------------------------------------------- the sheet is a sequence of row groups *)
+Definition add_edges (extras : list (edge U tidU)) (r : trow) : trow :=
+  {| r_id := r_id r; r_type := r_type r; r_edges := extras ++ r_edges r; r_goto := r_goto r; r_pay := r_pay r |}.
+
+Inductive blocks : list trow -> Prop :=
+| B_nil : blocks []
+| B_goto k child csn e rows :
+    fnode (n_uuid child) = Some child -> short_name child = Ok csn -> blocks rows ->
+    blocks (goto_row k (TNode (n_uuid child) csn) csn e :: rows)
+| B_loose k sn e rows : blocks rows -> blocks (loose_row k sn e :: rows)
+| B_node m sn pe r0 rest extras rows :
+    fnode (n_uuid m) = Some m -> short_name m = Ok sn -> initiate_row_models m sn pe = Ok (r0 :: rest) -> blocks rows ->
+    blocks (add_edges extras r0 :: rest ++ rows).
+
+Lemma prepend_edge_skip t e l : forall rows, (forall r, In r l -> tid_eqb ueqb (r_id r) t = false) ->
+  prepend_edge ueqb t e (l ++ rows) = option_map (app l) (prepend_edge ueqb t e rows).
+Proof.
+  induction l as [|r l IH]; intros rows H; cbn [app prepend_edge].
+  - destruct (prepend_edge ueqb t e rows); reflexivity.
+  - rewrite (H r (or_introl eq_refl)). rewrite IH by (intros r' Hr'; apply H; right; exact Hr').
+    destruct (prepend_edge ueqb t e rows); reflexivity.
+Qed.
+
+Lemma tid_eqb_false (a b : tidU) : a <> b -> tid_eqb ueqb a b = false.
+Proof. intros H. destruct (tid_eqb ueqb a b) eqn:E; [|reflexivity]. apply tid_eqb_true in E. contradiction. Qed.
+
+Lemma prepend_edge_blocks child csn e rows : blocks rows -> forall rows',
+  fnode (n_uuid child) = Some child -> short_name child = Ok csn ->
+  prepend_edge ueqb (TNode (n_uuid child) csn) e rows = Some rows' -> blocks rows'.
+Proof.
+  induction 1 as [|k c cs e0 rows Hc Hcs Hb IH|k sn e0 rows Hb IH|m sn pe r0 rest extras rows Hm Hsn Hi Hb IH]; intros rows' Hch Hcsn H.
+  - discriminate.
+  - cbn [prepend_edge goto_row r_id tid_eqb] in H. destruct (prepend_edge ueqb _ e rows) as [r'|] eqn:E; [|discriminate]. injection H as <-.
+    apply (B_goto k c cs e0 r' Hc Hcs). apply IH; auto.
+  - cbn [prepend_edge loose_row r_id tid_eqb] in H. destruct (prepend_edge ueqb _ e rows) as [r'|] eqn:E; [|discriminate]. injection H as <-.
+    apply (B_loose k sn e0 r'). apply IH; auto.
+  - destruct (initiate_spec _ _ _ _ Hi) as [_ Hs]. destruct (Hs 0%nat r0 eq_refl) as (A1 & _). cbn [sub_short] in A1.
+    cbn [prepend_edge add_edges r_id] in H. rewrite A1 in H.
+    destruct (tid_eqb ueqb (TNode (n_uuid m) sn) (TNode (n_uuid child) csn)) eqn:E.
+    + injection H as <-. rewrite <- A1. apply (B_node m sn pe r0 rest (e :: extras) rows Hm Hsn Hi Hb).
+    + rewrite prepend_edge_skip in H.
+      * destruct (prepend_edge ueqb _ e rows) as [r'|] eqn:E'; [|discriminate]. injection H as <-.
+        apply (B_node m sn pe r0 rest extras r' Hm Hsn Hi). apply IH; auto.
+      * intros r Hr. apply In_nth_error in Hr as [j Hj]. destruct (Hs (S j) r Hj) as (B1 & _). rewrite B1. apply tid_eqb_false.
+        intros Heq. injection Heq as Eu Es. pose proof (fnode_inj _ _ Hm Hch Eu) as ->. assert (Ecs : sn = csn) by congruence. rewrite <- Ecs in Es.
+        apply (sub_short_inj sn (S j) 0) in Es. discriminate.
+Qed.
+
+Lemma blocks_all :
+  (forall n sn st p st', Step n sn st p st' -> blocks (st_rows st) -> blocks (st_rows st'))
+  /\ (forall n sn st prs st', Steps n sn st prs st' -> blocks (st_rows st) -> blocks (st_rows st'))
+  /\ (forall n pe st st', Visit n pe st st' -> fnode (n_uuid n) = Some n -> blocks (st_rows st) -> blocks (st_rows st')).
+Proof.
+  apply dfs_mind.
+  - intros n sn st e _ H. exact H.
+  - intros n sn st e _ H. cbn [push_row st_rows]. apply B_loose, H.
+  - intros n sn st d e child csn rows' Hf _ Hs Hp H. cbn [with_rows st_rows].
+    apply (prepend_edge_blocks child csn e _ H rows' (fnode_self _ _ Hf) Hs Hp).
+  - intros n sn st d e child csn Hf _ _ Hs H. cbn [push_row st_rows]. apply (B_goto _ child csn e _ (fnode_self _ _ Hf) Hs H).
+  - intros n sn st d e child st' fuel Hf _ _ _ _ IH H. apply IH; [apply (fnode_self _ _ Hf)|exact H].
+  - intros n sn st H. exact H.
+  - intros n sn st p st1 rest st2 _ IH1 _ IH2 H. apply IH2, IH1, H.
+  - intros n pe st sn rms prs st' Hsn Hi _ _ IH Hn H. cbn [leave st_rows].
+    destruct (initiate_spec _ _ _ _ Hi) as [Hl _]. destruct rms as [|r0 rest]; [cbn [List.length] in Hl; lia|].
+    assert (E : r0 = add_edges [] r0) by (destruct r0; reflexivity). cbn [app]. rewrite E.
+    apply (B_node n sn pe r0 rest [] _ Hn Hsn Hi). apply IH. exact H.
+Qed.
+
 (* ---------------------------------------------------------------- exported nodes are listed once *)
 Lemma nodup_all :
   (forall n sn st p st', Step n sn st p st' -> NoDup (st_done st) -> NoDup (st_done st'))
@@ -541,6 +609,7 @@ Record sheet_facts (nodes : list (node U)) (n0 : node U) (rows : list (row U (ti
   sf_ids : NoDup (map (@r_id U (tid U)) rows);
   sf_idok : Forall (fun t => match t with TStart => False | TNode u _ => In u done | TGoto _ _ => True end) (map (@r_id U (tid U)) rows);
   sf_shape : Forall (shape U ueqb nodes) rows;
+  sf_blocks : blocks U ueqb nodes rows;
   sf_back : back U [] rows;
   sf_done : NoDup done;
   sf_complete : forall u, In u done ->
@@ -566,6 +635,7 @@ Proof.
   destruct (closed_all U ueqb ueqb_spec nodes) as (_ & _ & Hcl).
   destruct (events_all U ueqb ueqb_spec nodes) as (_ & _ & Hev).
   destruct (nodup_all U ueqb ueqb_spec nodes) as (_ & _ & Hdd).
+  destruct (blocks_all U ueqb ueqb_spec nodes) as (_ & _ & Hbl).
   destruct (Hcl _ _ _ _ HV Hn0) as [Hcl1 Hcl2].
   constructor.
   - inversion HV as [n pe st0 sn rms prs st' Hsn Hi _ _]; subst. destruct (initiate_spec U _ _ _ _ Hi) as [Hl Hs].
@@ -575,6 +645,7 @@ Proof.
   - exact Hnd.
   - eapply Forall_impl; [|exact Hok]. intros [|u s|k s]; cbn [id_ok]; auto.
   - apply (Hsh _ _ _ _ HV Hn0). constructor.
+  - apply (Hbl _ _ _ _ HV Hn0). constructor.
   - apply (Hbk _ _ _ _ HV [] Hn0 (fun x => x) (fun x => x)); [intros u m sn []|left; reflexivity|exact I].
   - apply (Hdd _ _ _ _ HV (fun x => x)). constructor.
   - apply (Hcp _ _ _ _ HV Hn0). intros u [].
